@@ -744,14 +744,21 @@ func genValidish(t *rapid.T) Case {
 		c.Method = "POST"
 		c.Path = rapid.SampledFrom([]string{"/un.C9/U1", "/un.C9/U2", "/un.C9/Bidi", "/un.C9/ClientS", "/un.C9/ServerS", "/un.C9/Upload", "/un.C9/Download", "/un.C9/Raw", "/grpc.health.v1.Health/Check"}).Draw(t, "vgpath")
 		var buf bytes.Buffer
+		anyGz := false
 		n := rapid.IntRange(1, 3).Draw(t, "vn")
 		for i := 0; i < n; i++ {
 			pl := rapid.SampledFrom([][]byte{nil, {0x18, 0x01}, {0x72, 0x02, 'h', 'i'}, {0x18}}).Draw(t, "vpl")
 			gz := rapid.IntRange(0, 3).Draw(t, "vgz") == 0
 			buf.Write(drive.GRPCFrame(pl, gz))
-			if gz && i == 0 {
-				c.Headers = append(c.Headers, [2]string{"Grpc-Encoding", "gzip"})
-			}
+			anyGz = anyGz || gz
+		}
+		// the declared encoding is drawn apart from the frames' compressed flags, so that every pairing
+		// (flag set under identity / an unknown name / no header at all, gzip declared but unused) occurs
+		switch enc := rapid.SampledFrom([]string{"match", "match", "match", "gzip", "identity", "nope", ""}).Draw(t, "venc"); {
+		case enc == "match" && anyGz:
+			c.Headers = append(c.Headers, [2]string{"Grpc-Encoding", "gzip"})
+		case enc != "match" && enc != "":
+			c.Headers = append(c.Headers, [2]string{"Grpc-Encoding", enc})
 		}
 		c.Body = buf.Bytes()
 		if c.Entry == "grpcwebtext" {
